@@ -156,6 +156,62 @@ def processLine (ln : Nat) (line : String) : M Unit := do
                                  slots := st.slots.setIfInBounds si (r.map shrink) }
       clearHints
     | none => clearHints
+  | "pre" :: s :: _ => do
+    -- an operator whose result is judged by its defining relations (see `res`)
+    match ← getSlot (tokNat s) with
+    | some p => modify fun st => { st with lastOp := some (tokNat s, p) }
+    | none => modify fun st => { st with lastOp := none }
+  | "res" :: s :: name :: t :: b :: rest => do
+    let si := tokNat s
+    let st ← get
+    match st.slots.getD si none, st.slots.getD (tokNat t) none with
+    | some p, some q =>
+      let n := p.n
+      let r : RefPoly := { p with cs := (parseCS n rest).1 }
+      let hints := st.hints
+      clearHints
+      let verdict : Option String :=
+        if name == "simplify_ctx" then
+          let meetPQ := p.meet q
+          let nonEmpty := !meetPQ.isEmpty
+          if (b == "1") != nonEmpty then some s!"simplify_using_context_assign returned {b} but the intersection is {if nonEmpty then "non-empty" else "empty"}"
+          else if nonEmpty && !((r.meet q).equiv meetPQ) then some "simplify_using_context_assign: result ∩ context ≠ argument ∩ context"
+          else if nonEmpty && !(r.contains p) then some "simplify_using_context_assign: result does not contain the argument"
+          else none
+        else if name == "diff" then
+          -- every piece P ∩ ¬c (c a row of Q) lies in R, and R ⊆ P
+          -- (for C polyhedra the result is closed: a non-empty piece P ∩ ¬c enters with its closure)
+          let pieces := q.cs.filterMap fun c =>
+            let strictPiece := p.addCons [c.neg]
+            if strictPiece.isEmpty then none
+            else some (if p.nnc then strictPiece else p.addCons [{ c.neg with strict := false }])
+          if !(pieces.all fun pc => r.contains pc) then some "poly_difference_assign: a point of the set difference is missing from the result"
+          else if !(p.contains r) then some "poly_difference_assign: the result is not contained in the minuend"
+          else if q.contains p && !r.isEmpty then some "poly_difference_assign: subtrahend contains minuend but result non-empty"
+          else none
+        else if name == "hull_if_exact" then
+          -- exact iff hull ⊆ P ∪ Q, i.e. every piece hull ∩ ¬c (c a row of P) lies in Q
+          let hull : Option RefPoly :=
+            if p.isEmpty then some { q with nnc := p.nnc } else if q.isEmpty then some p
+            else match hints.getD si none, hints.getD (tokNat t) none with
+              | some g1, some g2 => some (RefPoly.ofGens p.nnc n (g1 ++ g2))
+              | _, _ => none
+          match hull with
+          | none => none
+          | some h =>
+            let exact := p.cs.all fun c => q.contains (h.addCons [c.neg])
+            if (b == "1") != exact then some s!"upper_bound_assign_if_exact returned {b} but the union is {if exact then "convex" else "not convex"}"
+            else if b == "1" && !(r.equiv h) then some "upper_bound_assign_if_exact: true but result is not the hull"
+            else if b == "0" && !(r.equiv p) then some "upper_bound_assign_if_exact: false but the object changed"
+            else none
+        else none
+      match verdict with
+      | none => ok ln
+      | some w => bad ln w
+      setSlot si (shrink r)
+    | _, _ =>
+      clearHints
+      skip ln "unknown-slot"
   | "exc" :: cls :: _ => do
     -- the preceding operation threw: the library must have left the object unchanged
     match (← get).lastOp with
